@@ -5,10 +5,12 @@ package c03
 
 import (
 	"context"
+	"encoding/json"
 	"fmt"
 	"io"
 	"math"
 	"net/http"
+	"sort"
 	"strings"
 	"sync"
 	"testing"
@@ -173,6 +175,14 @@ func (s *sess) apply(l int) bool {
 
 // runHistory replays one history on a fresh server; returns the violations found.
 func runHistory(t *testing.T, hist []int, rep *ev.Report) (applicable bool, obs string, viol []string) {
+	applicable, obs, viol, _ = runHistoryK(t, hist, rep)
+	return
+}
+
+// runHistoryK also returns a canonical key of the state the history ends in: the reference fingerprint state, the
+// open stream, whether the server's SETTINGS was acknowledged and the next stream id. The capture code and Marshal read
+// nothing else, so histories with equal keys have equal futures (used by the deduplicating deep search).
+func runHistoryK(t *testing.T, hist []int, rep *ev.Report) (applicable bool, obs string, viol []string, key string) {
 	applicable = true
 	res := bubble.Run(t, func() {
 		param := &fp.HTTP2FingerprintParam{MaxPriorityFrames: math.MaxUint}
@@ -193,6 +203,7 @@ func runHistory(t *testing.T, hist []int, rep *ev.Report) (applicable bool, obs 
 			}
 			synctest.Wait()
 			history = append(history, s.ref.Clone())
+			lastKey = fmt.Sprintf("%s|open=%d|acked=%v|next=%d", s.ref.String(-1), s.open, s.acked, s.next)
 			// every handler that has finished by now
 			s.mu.Lock()
 			rs := append([]result(nil), s.results[checked:]...)
@@ -244,8 +255,11 @@ func runHistory(t *testing.T, hist []int, rep *ev.Report) (applicable bool, obs 
 	if res.Hang != "" {
 		rep.Violate(map[string]any{"kind": "hang"}, map[string]any{"hang": res.Hang}, "the exchange never completed: %s", res.Hang)
 	}
+	key = lastKey
 	return
 }
+
+var lastKey string // set by the body of runHistoryK (one execution at a time per process)
 
 func uniq(a []string) []string {
 	seen := map[string]bool{}
@@ -352,6 +366,106 @@ func seqs[T any](alpha []T, maxLen int) [][]T {
 		prev = cur
 	}
 	return out
+}
+
+// seamBDeep: level-synchronous breadth-first search over histories with global deduplication on the canonical state
+// key, beyond the depth of the full enumeration. Every level expands each distinct state of the previous level by
+// every applicable letter; the expansions of a level are partitioned over the shards, which exchange the (history, key)
+// pairs they found at a barrier, so that all shards continue from the same deduplicated frontier.
+func seamBDeep(t *testing.T, rep *ev.Report, shard, of int, from, to int) {
+	type found struct {
+		H []int  `json:"h"`
+		K string `json:"k"`
+	}
+	seen := map[string]bool{}
+	var frontier [][]int
+	// level `from`: every history of that length
+	var all [][]int
+	var gen func(prefix []int)
+	gen = func(prefix []int) {
+		if len(prefix) == from {
+			all = append(all, append([]int(nil), prefix...))
+			return
+		}
+		for l := 0; l < nLetters; l++ {
+			gen(append(prefix, l))
+		}
+	}
+	gen(nil)
+	level := func(name string, cands [][]int, count bool) bool {
+		var mineFound []found
+		for i, hist := range cands {
+			if i%of != shard {
+				continue
+			}
+			app, obs, viol, key := runHistoryK(t, hist, rep)
+			if !app {
+				continue
+			}
+			if count {
+				rep.Add("deep_transitions", 1)
+				rep.Add("transitions", 1)
+				rep.Add("traces_validated_against_impl", 1)
+				rep.Add("evaluations", 1)
+				if obs != "" {
+					rep.Note("distinct_nontrivial", mc.Hash64(obs))
+				}
+				for _, v := range viol {
+					if strings.HasPrefix(v, "HARNESS") {
+						rep.HarnessError("deep history %v: %s", names(hist), v)
+						continue
+					}
+					rep.Violate(map[string]any{"kind": "capture-wrong", "seam": "B-deep", "last_letters": strings.Join(names(hist[len(hist)-2:]), ",")},
+						map[string]any{"history": names(hist), "letters": hist}, "history %v: %s", names(hist), v)
+					break
+				}
+			}
+			mineFound = append(mineFound, found{hist, key})
+		}
+		payload, _ := json.Marshal(mineFound)
+		parts, err := ev.Exchange(name, shard, of, payload)
+		if err != nil {
+			rep.HarnessError("deep search: %v", err)
+			return false
+		}
+		var merged []found
+		for _, p := range parts {
+			var fs []found
+			json.Unmarshal(p, &fs)
+			merged = append(merged, fs...)
+		}
+		sort.Slice(merged, func(i, j int) bool { return fmt.Sprint(merged[i].H) < fmt.Sprint(merged[j].H) })
+		frontier = nil
+		for _, f := range merged {
+			if !seen[f.K] {
+				seen[f.K] = true
+				frontier = append(frontier, f.H)
+			}
+		}
+		return true
+	}
+	if !level(fmt.Sprintf("L%d", from), all, false) {
+		return
+	}
+	for depth := from + 1; depth <= to; depth++ {
+		var cands [][]int
+		for _, h := range frontier {
+			for l := 0; l < nLetters; l++ {
+				cands = append(cands, append(append([]int(nil), h...), l))
+			}
+		}
+		if !level(fmt.Sprintf("L%d", depth), cands, true) {
+			return
+		}
+		rep.SetMax("deep_search_depth", int64(depth))
+		if rep.NumViolations() > 20 {
+			return
+		}
+	}
+	rep.SetMax("deep_distinct_states", int64(len(seen)))
+	if shard == 0 {
+		rep.Add("states", int64(len(seen)))
+	}
 }
 
 func seamA(rep *ev.Report, shard, of int) {
@@ -492,4 +606,9 @@ func TestCheck(t *testing.T) {
 		seamC(rep)
 	}
 	seamB(t, rep, shard, of)
+	if ev.Thorough() {
+		seamBDeep(t, rep, shard, of, 3, 9)
+	} else {
+		seamBDeep(t, rep, shard, of, 2, 7)
+	}
 }
